@@ -25,6 +25,7 @@ import os
 from harness import core, tlaval
 from harness.mem2_common import batch_verdicts, tlc_many, cfg_text, printed_tuple
 from harness import mem2_newinit as mn
+from harness.mem2_child import run_child
 
 LEVEL = "model_checking"
 
@@ -123,15 +124,19 @@ def design_level(ctx):
     return res[jobs[0][0]]
 
 
-def replay_states(ctx, lab, recs):
-    """spec -> code: all (shape, initializer) states of the depth-2 universe"""
+def dump_states(ctx):
+    """parent: all (shape, initializer) states of the depth-2 universe and the shape table"""
     dump = os.path.join(ctx.tmp, "newinit_states")
     r = core.tlc("MC_NewInit", cfg_text=mc_cfg("faithful", 2, SHAPE_NAMES, []), dump=dump, workers=4)
     ctx.add_tlc("dump(MC_NewInit,depth<=2)", r, count_states=False)
     shp = printed_tuple(r.out, "SHAPES")
     if not shp:
         raise core.MachineryError("MC_NewInit did not print its shape table")
-    tla_shapes = norm(shp[1])
+    return {"dot": dump + ".dot", "shapes": norm(shp[1])}
+
+
+def replay_states(ctx, lab, recs, dot, tla_shapes):
+    """spec -> code (sub-process): execute every state"""
     py = shapes_py()
     for name, t in py.items():
         lab.declare(t)
@@ -139,11 +144,12 @@ def replay_states(ctx, lab, recs):
         if norm(tla_shapes[name]["t"]) != mine or tla_shapes[name]["isptr"] != (not isinstance(t, mn.Arr)):
             raise core.MachineryError("shape %s of MC_NewInit.tla does not have the layout cffi reports:\n%r\n%r" % (
                 name, tla_shapes[name]["t"], mine))
-    g = tlaval.load_dot(dump + ".dot")
+    g = tlaval.load_dot(dot)
     n = 0
     for sid, st in g.states.items():
         t = py[st["shape"]]
         init = norm(st["init"])
+        ctx.about("shape %s init %r" % (st["shape"], init))
         pyinit = None if init["k"] == "none" else render(lab, t, init)
         rec = lab.run_case(t, pyinit, init, "shape %s:%s" % (st["shape"], init["k"]))
         recs.append(rec)
@@ -176,6 +182,7 @@ def driver(ctx, lab, recs, n):
             pyinit, init = None, mn.mk("none")
         else:
             pyinit, init = lab.gen_init(t, 3)
+        ctx.about("%s init %r" % (lab.cname(t), init))
         rec = lab.run_case(t, pyinit, init, mn.describe(t, init, lab))
         recs.append(rec)
         ctx.case((rec["cdecl"], repr(init)))
@@ -195,13 +202,24 @@ def judge(ctx, recs, report=True):
     return nbad, diverge
 
 
+def produce(cc, args):
+    """executed in a sub-process (harness.mem2_child): everything that touches the real cffi"""
+    lab = mn.Lab(cc.rng)
+    recs = []
+    replay_states(cc, lab, recs, args["dot"], args["shapes"])
+    nstates = len(recs)
+    driver(cc, lab, recs, nstates + (1000 if cc.quick else 20000))
+    for r in recs:
+        r["init_kind"] = r["init"]["k"]
+    return {"recs": recs, "nstates": nstates}
+
+
 def run(ctx):
     design_level(ctx)
-    lab = mn.Lab(ctx.rng)
-    recs = []
-    replay_states(ctx, lab, recs)
-    nstates = len(recs)
-    driver(ctx, lab, recs, nstates + (1000 if ctx.quick else 20000))
+    out = run_child(ctx, "c20", dump_states(ctx))
+    if out is None:
+        return
+    recs, nstates = out["recs"], out["nstates"]
     nbad, diverge = judge(ctx, recs)
     div = ["record %d %s (%s): %s" % (i, recs[i]["cdecl"], recs[i]["desc"], what) for i, what in sorted(diverge.items())]
     for i, r in enumerate(recs):
